@@ -81,6 +81,11 @@ let handle line =
     let o = p_opts () in let n = cnt () in
     let cs = times n (fun () -> let a = opt () in let b = opt () in let c = opt () in { tc_origin = a; tc_sender = b; tc_recipient = c }) in
     (match filter_transfers !db_st cs o with Some l -> rows show_tr l | None -> "err")
+  | "GEN" ->
+    (* Writer.Write(genesisBlock, one receipt without tx): the genesis rows written at start-up *)
+    let id = nx () in let p = nx () in let tm = nx () in let no = cnt () in let outs = times no p_out in
+    let b = { b_id = id; b_parent = p; b_time = tm; b_txs = []; b_rcs = [{ rc_rev = false; rc_outs = outs }] } in
+    (match write_block b !db_st with Some db -> db_st := db; "ok" | None -> "err")
   | "DBRESET" -> db_st := empty_db; "ok"
   | "DBW" ->
     let id = nx () in
